@@ -150,6 +150,7 @@ func driveBridge(beh behaviour, seed int64) *fw.Trace {
 		setHook(func(name string) {
 			if name == hpDispose {
 				r.s.Gate(hpDispose, nil)
+				r.s.After() // lets the scheduler see that an adopted goroutine has moved on
 			}
 		})
 	}
